@@ -279,6 +279,22 @@ pub fn run(ctx: &mut Ctx) {
     let mut r = 0u32;
     while (r as u64) < FACT10 { oracle_grid(ctx, r); r += stride; }
     for r in [0u32, 1, f - 1, 362_879, 362_880, 3_265_919, 3_265_920] { oracle_grid(ctx, r); }
+    // radix boundaries of the mixed-radix decoding, whichever end it starts from: the falling products 10, 10*9, 10*9*8, ..
+    // and the factorials 2!, 3!, .. 9!, every small multiple of each, and the residues on either side (a digit that has
+    // just become 1 with nothing below it, or the largest digit string below it)
+    {
+        let mut prods: Vec<u64> = Vec::new();
+        let mut pdown = 1u64; for i in (2..=10u64).rev() { pdown *= i; prods.push(pdown); }
+        let mut pup = 1u64; for i in 2..=9u64 { pup *= i; prods.push(pup); }
+        for pr in prods {
+            for m in 1..=9u64 {
+                for d in [-1i64, 0, 1] {
+                    let r = (m * pr) as i64 + d;
+                    if r >= 0 && (r as u64) < FACT10 { oracle_grid(ctx, r as u32); }
+                }
+            }
+        }
+    }
     if quick {
         ctx.exhaustive.push(format!("remap_pin_grid through the hook on every {}st residue modulo 10! (permutation, equals the factorial-base specification, equals the grid of seed+10!, seed+2*10! and of the largest u32 in the class)", stride));
     } else {
